@@ -564,9 +564,9 @@ static size_t safec_ftoa(out_fct_type out, const char *funcname, char *buffer,
 #endif // PRINTF_SUPPORT_EXPONENTIAL
     }
 
-    // test for negative
+    // test for negative, including -0.0
     negative = false;
-    if (value < 0) {
+    if (signbit(value)) {
         negative = true;
         value = 0 - value;
     }
@@ -659,13 +659,14 @@ static size_t safec_ftoa(out_fct_type out, const char *funcname, char *buffer,
         }
     }
 
-    if (len < PRINTF_FTOA_BUFFER_SIZE) {
+    // the text starts at buf[off] after the stripping
+    if (off + len < PRINTF_FTOA_BUFFER_SIZE) {
         if (negative) {
-            buf[len++] = '-';
+            buf[off + len++] = '-';
         } else if (flags & FLAGS_PLUS) {
-            buf[len++] = '+'; // ignore the space if the '+' exists
+            buf[off + len++] = '+'; // ignore the space if the '+' exists
         } else if (flags & FLAGS_SPACE) {
-            buf[len++] = ' ';
+            buf[off + len++] = ' ';
         }
     }
 
@@ -805,8 +806,8 @@ static size_t safec_etoa(out_fct_type out, const char *funcname, char *buffer,
                           width, flags);
     }
 
-    // determine the sign
-    negative = value < 0;
+    // determine the sign, including -0.0
+    negative = signbit(value) != 0;
     if (negative) {
         value = -value;
     }
@@ -842,6 +843,11 @@ static size_t safec_etoa(out_fct_type out, const char *funcname, char *buffer,
             conv.F /= 10;
         }
     }
+    // zero has the exponent 0
+    if (value == 0.0) {
+        expval = 0;
+        conv.F = 1.0;
+    }
 
     // the exponent format is "%+03d" and largest value is "307", so set aside
     // 4-5 characters
@@ -850,7 +856,8 @@ static size_t safec_etoa(out_fct_type out, const char *funcname, char *buffer,
     // in "%g" mode, "prec" is the number of *significant figures* not decimals
     if (flags & FLAGS_ADAPT_EXP) {
         // do we want to fall-back to "%f" mode?
-        if ((flags & FLAGS_HASH) || ((value >= 1e-4) && (value < 1e6))) {
+        if ((flags & FLAGS_HASH) || (value == 0.0) ||
+            ((value >= 1e-4) && (value < 1e6))) {
             if ((int)prec > expval) {
                 prec = (unsigned)((int)prec - expval - 1);
             } else {
